@@ -232,25 +232,26 @@ theorem Frame.of_accts_eq {F : Bytes → Slot → Prop} {A0 : Accts} {c c1 : Ctx
 
 def addrOK (c : Call) (a : Bytes) : Prop := a = c.caller ∨ a = c.rcv ∨ a = systemAccountAddress ∨ a ∈ c.args
 
-def protoKey (c : Call) (k : Bytes) : Prop :=
-  ∃ t ∈ c.args, (∃ n, k = esdtKeyPrefix ++ t ++ n) ∨ k = roleKeyPrefix ++ t ∨ k = nonceKeyPrefix ++ t
+/-- protocol keys of a token named in the input; `r` / `n`: whether the role-list / nonce-counter namespace is included -/
+def protoKey (r n : Bool) (c : Call) (k : Bytes) : Prop :=
+  ∃ t ∈ c.args, (∃ s, k = esdtKeyPrefix ++ t ++ s) ∨ (r = true ∧ k = roleKeyPrefix ++ t) ∨ (n = true ∧ k = nonceKeyPrefix ++ t)
 
 /-- token functions: only protocol entries (balance / role list / nonce counter / pause flag) of tokens named in
     the input, only in the sender, the destination, the system account or an address given as argument -/
-def tokenFootprint (c : Call) (a : Bytes) : Slot → Prop
-  | .key k => addrOK c a ∧ protoKey c k
+def tokenFootprint (r n : Bool) (c : Call) (a : Bytes) : Slot → Prop
+  | .key k => addrOK c a ∧ protoKey r n c k
   | _ => False
 
-theorem fp_esdt (c : Call) (a t n : Bytes) (ha : addrOK c a) (ht : t ∈ c.args) :
-    tokenFootprint c a (.key (esdtKeyPrefix ++ t ++ n)) := ⟨ha, t, ht, Or.inl ⟨n, rfl⟩⟩
-theorem fp_esdt0 (c : Call) (a t : Bytes) (ha : addrOK c a) (ht : t ∈ c.args) :
-    tokenFootprint c a (.key (esdtKeyPrefix ++ t)) := ⟨ha, t, ht, Or.inl ⟨[], by simp⟩⟩
-theorem fp_nft (c : Call) (a t : Bytes) (n : Nat) (ha : addrOK c a) (ht : t ∈ c.args) :
-    tokenFootprint c a (.key (nftKey (esdtKeyPrefix ++ t) n)) := ⟨ha, t, ht, Or.inl ⟨beBytes n, rfl⟩⟩
-theorem fp_role (c : Call) (a t : Bytes) (ha : addrOK c a) (ht : t ∈ c.args) :
-    tokenFootprint c a (.key (roleKeyPrefix ++ t)) := ⟨ha, t, ht, Or.inr (Or.inl rfl)⟩
-theorem fp_nonce (c : Call) (a t : Bytes) (ha : addrOK c a) (ht : t ∈ c.args) :
-    tokenFootprint c a (.key (nonceKeyPrefix ++ t)) := ⟨ha, t, ht, Or.inr (Or.inr rfl)⟩
+theorem fp_esdt (r n : Bool) (c : Call) (a t s : Bytes) (ha : addrOK c a) (ht : t ∈ c.args) :
+    tokenFootprint r n c a (.key (esdtKeyPrefix ++ t ++ s)) := ⟨ha, t, ht, Or.inl ⟨s, rfl⟩⟩
+theorem fp_esdt0 (r n : Bool) (c : Call) (a t : Bytes) (ha : addrOK c a) (ht : t ∈ c.args) :
+    tokenFootprint r n c a (.key (esdtKeyPrefix ++ t)) := ⟨ha, t, ht, Or.inl ⟨[], by simp⟩⟩
+theorem fp_nft (r n : Bool) (c : Call) (a t : Bytes) (k : Nat) (ha : addrOK c a) (ht : t ∈ c.args) :
+    tokenFootprint r n c a (.key (nftKey (esdtKeyPrefix ++ t) k)) := ⟨ha, t, ht, Or.inl ⟨beBytes k, rfl⟩⟩
+theorem fp_role (n : Bool) (c : Call) (a t : Bytes) (ha : addrOK c a) (ht : t ∈ c.args) :
+    tokenFootprint true n c a (.key (roleKeyPrefix ++ t)) := ⟨ha, t, ht, Or.inr (Or.inl ⟨rfl, rfl⟩)⟩
+theorem fp_nonce (r : Bool) (c : Call) (a t : Bytes) (ha : addrOK c a) (ht : t ∈ c.args) :
+    tokenFootprint r true c a (.key (nonceKeyPrefix ++ t)) := ⟨ha, t, ht, Or.inr (Or.inr ⟨rfl, rfl⟩)⟩
 
 theorem addrOK.caller (c : Call) : addrOK c c.caller := Or.inl rfl
 theorem addrOK.rcv (c : Call) : addrOK c c.rcv := Or.inr (Or.inl rfl)
